@@ -32,6 +32,12 @@ type recRun struct {
 	// (lock step); "w" = written only (the records stay in flight); "r" = the
 	// peer reads up to Count records of direction Dir that are in flight.
 	Op string `json:"op,omitempty"`
+	// Cut > 0: the transport accepts only Cut bytes (modulo the wire length)
+	// of every record of this run on the first Flush and reports a timeout;
+	// the record is completed by further Flush calls (C16 decides the exact
+	// accounting; here the stream must simply go on decrypting, also when
+	// the interrupted record is the one at a rotation boundary).
+	Cut int `json:"cut,omitempty"`
 }
 
 func plaintext(seed uint64, r recSpec, idx int) []byte {
@@ -121,7 +127,21 @@ func runC08(c *c08Case) (violation string, total int, rotations int, equalPlain 
 					break
 				}
 			}
-			wire, err := writeRecord(w, pt)
+			var wire []byte
+			var err error
+			if run.Cut > 0 {
+				if err = w.WriteMessage(pt); err == nil {
+					pw := &partialWriter{cuts: []int{1 + (run.Cut-1)%(18+len(pt)+16-1)}}
+					for tries := 0; tries < 4; tries++ {
+						if _, err = w.Flush(pw); err == nil {
+							break
+						}
+					}
+					wire = pw.accepted
+				}
+			} else {
+				wire, err = writeRecord(w, pt)
+			}
 			if err != nil {
 				return fmt.Sprintf("dir %d record %d (len %d): write failed: %v", r.Dir, idx, len(pt), err), total, rotations, equalPlain
 			}
@@ -215,6 +235,9 @@ func genC08(t *rapid.T) *c08Case {
 			r.Count = budget
 		}
 		budget -= r.Count
+		if rapid.IntRange(0, 5).Draw(t, "partial") == 0 {
+			r.Cut = rapid.OneOf(rapid.IntRange(1, 18), rapid.IntRange(1, 400)).Draw(t, "cut")
+		}
 		if decoupled {
 			switch rapid.IntRange(0, 3).Draw(t, "op") {
 			case 0:
